@@ -458,13 +458,23 @@ def classify_spec(ck, case, obs, wf):
         ck.fail(key, what, case, what, "the written graph")
 
 
+MODEL_VALID_DTYPES = ("bool", "int8", "int16", "int32", "int64", "uint8", "uint16", "uint32", "uint64", "float32", "float64",
+                      "bytes", "str")
+
+
 def run(ck: common.Check):
     ck.prove(["GeffProps.C01"])
+    # library tie: the dtype list hard-wired in GeffModel/WriteRead.lean (`validDtypes`) is the source's VALID_DTYPES
+    from geff_spec._valid_values import VALID_DTYPES
+    if tuple(VALID_DTYPES) != MODEL_VALID_DTYPES:
+        ck.broken.append({"what": "corr C01:VALID_DTYPES", "detail": {"source": list(VALID_DTYPES), "model": list(MODEL_VALID_DTYPES)}})
     ck.rule = ("cases = corpus + bounded-exhaustive (N,E<=3; every id dtype at its limits; every property dtype x rank 1..3 x "
                "every missing pattern of length <=2; var-length element dtype x ndim 0..2 x shape mixes of extent <=2 x missing "
                "patterns) + hand-picked (names equal to path constants, axes, caller metadata, error branch) + seeded random "
                "graphs (N<=40, E<=80, <=6 properties, special floats by bit pattern, unicode strings, adversarial names) + a "
-               "malformed stream; every case on MemoryStore x zarr_format 2 and 3, a sample on LocalStore/Path/str; "
+               "malformed stream; a share of the arrays in other memory layouts (Fortran order, swapped axes, strided, negative "
+               "stride, big-endian, read-only); unsquish arguments (valid and invalid); every case on MemoryStore x zarr_format "
+               "2 and 3, a sample on LocalStore/Path/str; "
                "non-trivial = at least one node or one property; distinct = distinct canonical case JSON")
     cases = [c for c in R.corpus(PROP)]
     base = rotate_layouts(exhaustive(ck.quick)) + special_cases()
